@@ -301,7 +301,7 @@ pub fn check_bytes(b: &[u8], tail: &[u8]) -> CodecVerdict {
     v
 }
 
-fn mutate(t: &mut Tape, b: &mut Vec<u8>) -> &'static str {
+pub fn mutate(t: &mut Tape, b: &mut Vec<u8>) -> &'static str {
     match t.weighted(&[6, 2, 2, 2, 2, 1, 1, 1]) {
         0 => "wellformed",
         1 => {
